@@ -99,7 +99,8 @@ pub fn judge(x: &Vec<u8>, st: &mut Stats) -> Verdict {
         views(x, &owned, "owned")
     }) {
         Ok(v) => v,
-        Err(_) => Ok(()), // a panic in an accessor is C03's business
+        // an accessor that panics on an accepted header has no value to satisfy the identities with
+        Err(p) => Err(Fail::new("accessor-panics", shape2(x), ENTRY, "every view returns a value", format!("panic: {}", p))),
     }
 }
 
